@@ -3,6 +3,7 @@ package drivers
 import (
 	"context"
 	"encoding/json"
+	"errors"
 	"fmt"
 	"math/rand"
 	"sort"
@@ -17,6 +18,7 @@ import (
 	"github.com/libp2p/go-libp2p-kad-dht/fullrt"
 	pb "github.com/libp2p/go-libp2p-kad-dht/pb"
 	record "github.com/libp2p/go-libp2p-record"
+	recpb "github.com/libp2p/go-libp2p-record/pb"
 	"github.com/libp2p/go-libp2p/core/host"
 	"github.com/libp2p/go-libp2p/core/network"
 	"github.com/libp2p/go-libp2p/core/peer"
@@ -44,7 +46,7 @@ type FRTPeer struct {
 }
 
 type FRTScenario struct {
-	Kind  string    `json:"kind"` // closest | swap | crawl | ops
+	Kind  string    `json:"kind"` // closest | swap | crawl | ops | findprov | searchvalue
 	Seed  int64     `json:"seed"`
 	K     int       `json:"K"`
 	Limit int       `json:"limit"`
@@ -54,11 +56,17 @@ type FRTScenario struct {
 	A []int `json:"a,omitempty"`
 	B []int `json:"b,omitempty"`
 	// crawl
-	Nbrs     [][]int `json:"nbrs,omitempty"`  // per peer (1-based) the peers it lists
-	Fails    []int   `json:"fails,omitempty"` // peers that cannot be queried
-	Seeds    []int   `json:"seeds,omitempty"`
-	SeedNoAddr []int `json:"seednoaddr,omitempty"` // seeds given by id only, with no address known
-	Par      int     `json:"par,omitempty"`
+	Nbrs       [][]int `json:"nbrs,omitempty"`  // per peer (1-based) the peers it lists
+	Fails      []int   `json:"fails,omitempty"` // peers that cannot be queried
+	Seeds      []int   `json:"seeds,omitempty"`
+	SeedNoAddr []int   `json:"seednoaddr,omitempty"` // seeds given by id only, with no address known
+	Par        int     `json:"par,omitempty"`
+	// findprov: per table peer the providers (numbers) it reports, the count asked for, whether the caller reads slowly
+	Provs    [][]int `json:"provs,omitempty"`
+	Count    int     `json:"count,omitempty"`
+	SlowCons bool    `json:"slowcons,omitempty"`
+	// searchvalue: per table peer the value it returns ("" none, "V2:a" valid rank 2, "I1" invalid); values of equal rank may differ
+	Vals []string `json:"vals,omitempty"`
 	// ops: which construction options are present
 	WithBootstrap bool   `json:"withbootstrap,omitempty"`
 	WithBucket    bool   `json:"withbucket,omitempty"`
@@ -91,10 +99,10 @@ func frtAddr(group, i int) ma.Multiaddr {
 }
 
 type frtEnv struct {
-	h     *sim.FakeHost
-	ids   []peer.ID // index i-1 = scenario peer i
-	fc    *scriptedCrawler
-	d     *fullrt.FullRT
+	h   *sim.FakeHost
+	ids []peer.ID // index i-1 = scenario peer i
+	fc  *scriptedCrawler
+	d   *fullrt.FullRT
 }
 
 func frtBuild(t *testing.T, sc *FRTScenario, r *rand.Rand, opts ...fullrt.Option) (*frtEnv, error) {
@@ -182,6 +190,10 @@ func runFRT(t *testing.T, sc *FRTScenario, ch sim.Chooser) (evs []sim.Ev) {
 			evs = runFRTCrawl(t, sc, ch)
 		case "ops":
 			evs = runFRTOps(t, sc)
+		case "findprov":
+			evs = runFRTFindProv(t, sc, ch)
+		case "searchvalue":
+			evs = runFRTSearchValue(t, sc, ch)
 		}
 	})
 	if dl != "" {
@@ -446,6 +458,277 @@ func runFRTOps(t *testing.T, sc *FRTScenario) []sim.Ev {
 	return tr.Events
 }
 
+// runFRTFindProv: a provider search of the accelerated client. Every peer of its table answers GET_PROVIDERS with
+// scripted providers; the schedule decides the order in which answers arrive and, with a slow caller, when the
+// caller takes the next provider from the channel (several answers can then be processed while none has been taken).
+func runFRTFindProv(t *testing.T, sc *FRTScenario, ch sim.Chooser) []sim.Ev {
+	r := rand.New(rand.NewSource(sc.Seed))
+	tr := &sim.Trace{}
+	gate := &sim.Gate{}
+	sender := &sim.GatedSender{G: gate}
+	e, err := frtBuild(t, sc, r, fullrt.DHTOption(dht.BucketSize(sc.K), dht.BootstrapPeers(),
+		dht.WithCustomMessageSender(func(host.Host, []protocol.ID) pb.MessageSenderWithDisconnect { return sender })))
+	tr.Add("Reset", "kind", "findprov", "count", sc.Count, "slowcons", sc.SlowCons, "npeers", len(sc.Peers), "ts", 0)
+	if err != nil {
+		tr.Add("FP", "emitted", []int{}, "offered", []int{}, "hang", false, "err", err.Error())
+		tr.Add("End")
+		return tr.Events
+	}
+	e.install(frtAll(len(sc.Peers)))
+	synctest.Wait()
+	_ = e.d.TriggerRefresh(context.Background())
+	synctest.Wait()
+	idx := map[peer.ID]int{}
+	for i, p := range e.ids {
+		idx[p] = i + 1
+	}
+	provIDs := []peer.ID{}
+	pnum := map[peer.ID]int{}
+	for i := 0; i < 4; i++ {
+		p := sim.NewPeerID(r)
+		provIDs = append(provIDs, p)
+		pnum[p] = i + 1
+	}
+	b := make([]byte, 32)
+	r.Read(b)
+	hsh, _ := mh.Encode(b, mh.SHA2_256)
+	c := cid.NewCidV1(cid.Raw, hsh)
+	ctx, cancel := context.WithCancel(context.Background())
+	defer cancel()
+	var mu sync.Mutex
+	emitted := []int{}
+	done := make(chan struct{})
+	go func() {
+		defer close(done)
+		for ai := range e.d.FindProvidersAsync(ctx, c, sc.Count) {
+			mu.Lock()
+			emitted = append(emitted, pnum[ai.ID])
+			mu.Unlock()
+			if sc.SlowCons {
+				_, _ = gate.Park(nil, "consume", "consume", nil)
+			}
+		}
+	}()
+	offered := map[int]bool{}
+	hang := false
+	for steps := 0; steps < 5000; steps++ {
+		synctest.Wait()
+		select {
+		case <-done:
+		default:
+			items := gate.Pending()
+			if len(items) == 0 {
+				select {
+				case <-done:
+				case <-time.After(time.Hour):
+					hang = true
+				}
+				if hang {
+					break
+				}
+				continue
+			}
+			it := items[ch.Choose(len(items))]
+			if it.Kind == "consume" {
+				gate.Release(it, nil)
+				continue
+			}
+			rpc := it.Payload.(*sim.RPC)
+			o := sim.RPCOutcome{}
+			if rpc.Request {
+				resp := &pb.Message{Type: rpc.Msg.GetType(), Key: rpc.Msg.GetKey()}
+				if i := idx[rpc.Peer]; i >= 1 && i <= len(sc.Provs) && rpc.Msg.GetType() == pb.Message_GET_PROVIDERS {
+					for _, x := range sc.Provs[i-1] {
+						resp.ProviderPeers = append(resp.ProviderPeers, &pb.Message_Peer{Id: []byte(provIDs[x-1]), Addrs: [][]byte{sim.DefaultAddr(600 + x).Bytes()}})
+						offered[x] = true
+					}
+				}
+				o.Resp = resp
+			}
+			gate.Release(it, o)
+			continue
+		}
+		break
+	}
+	cancel()
+	for _, it := range gate.Pending() {
+		if it.Kind == "consume" {
+			gate.Release(it, nil)
+		} else {
+			gate.Release(it, sim.RPCOutcome{Err: errors.New("sim: shutting down")})
+		}
+	}
+	if hang {
+		select {
+		case <-done:
+		case <-time.After(time.Hour):
+		}
+	}
+	off := []int{}
+	for x := range offered {
+		off = append(off, x)
+	}
+	sort.Ints(off)
+	mu.Lock()
+	em := append([]int{}, emitted...)
+	mu.Unlock()
+	tr.Add("FP", "emitted", em, "offered", off, "hang", hang, "err", "")
+	cl := make(chan struct{})
+	go func() { _ = e.d.Close(); close(cl) }()
+	for i := 0; i < 50; i++ {
+		synctest.Wait()
+		for _, it := range gate.Pending() {
+			if it.Kind == "consume" {
+				gate.Release(it, nil)
+			} else {
+				gate.Release(it, sim.RPCOutcome{Err: errors.New("sim: shutting down")})
+			}
+		}
+		select {
+		case <-cl:
+			i = 50
+		default:
+			time.Sleep(time.Second)
+		}
+	}
+	_ = e.h.Close()
+	tr.Add("End")
+	return tr.Events
+}
+
+// runFRTSearchValue: a value search of the accelerated client. Every table peer answers GET_VALUE with its scripted
+// record; the stream of values the caller receives has to improve strictly under the validator (different records
+// of equal rank are not improvements), hold valid values only, and end.
+func runFRTSearchValue(t *testing.T, sc *FRTScenario, ch sim.Chooser) []sim.Ev {
+	r := rand.New(rand.NewSource(sc.Seed))
+	tr := &sim.Trace{}
+	gate := &sim.Gate{}
+	sender := &sim.GatedSender{G: gate}
+	e, err := frtBuild(t, sc, r, fullrt.DHTOption(dht.BucketSize(sc.K), dht.BootstrapPeers(), dht.Validator(record.NamespacedValidator{"v": simValidator{}}),
+		dht.WithCustomMessageSender(func(host.Host, []protocol.ID) pb.MessageSenderWithDisconnect { return sender })))
+	tr.Add("Reset", "kind", "searchvalue", "count", 0, "slowcons", sc.SlowCons, "npeers", len(sc.Peers), "ts", 0)
+	if err != nil {
+		tr.Add("SV", "ranks", []int{}, "valid", true, "offered", true, "hang", false, "err", err.Error())
+		tr.Add("End")
+		return tr.Events
+	}
+	e.install(frtAll(len(sc.Peers)))
+	synctest.Wait()
+	_ = e.d.TriggerRefresh(context.Background())
+	synctest.Wait()
+	idx := map[peer.ID]int{}
+	for i, p := range e.ids {
+		idx[p] = i + 1
+	}
+	key := fmt.Sprintf("/v/frtsv-%d", sc.Seed)
+	ctx, cancel := context.WithCancel(context.Background())
+	defer cancel()
+	var mu sync.Mutex
+	got := []string{}
+	done := make(chan struct{})
+	go func() {
+		defer close(done)
+		out, err := e.d.SearchValue(ctx, key)
+		if err != nil {
+			return
+		}
+		for v := range out {
+			mu.Lock()
+			got = append(got, string(v))
+			mu.Unlock()
+			if sc.SlowCons {
+				_, _ = gate.Park(nil, "consume", "consume", nil)
+			}
+		}
+	}()
+	delivered := map[string]bool{}
+	hang := false
+	drain := func() {
+		for _, it := range gate.Pending() {
+			if it.Kind == "consume" {
+				gate.Release(it, nil)
+			} else {
+				gate.Release(it, sim.RPCOutcome{Err: errors.New("sim: shutting down")})
+			}
+		}
+	}
+	for steps := 0; steps < 5000; steps++ {
+		synctest.Wait()
+		select {
+		case <-done:
+		default:
+			items := gate.Pending()
+			if len(items) == 0 {
+				select {
+				case <-done:
+				case <-time.After(time.Hour):
+					hang = true
+				}
+				if hang {
+					break
+				}
+				continue
+			}
+			it := items[ch.Choose(len(items))]
+			if it.Kind == "consume" {
+				gate.Release(it, nil)
+				continue
+			}
+			rpc := it.Payload.(*sim.RPC)
+			o := sim.RPCOutcome{}
+			if rpc.Request {
+				resp := &pb.Message{Type: rpc.Msg.GetType(), Key: rpc.Msg.GetKey()}
+				if i := idx[rpc.Peer]; i >= 1 && i <= len(sc.Vals) && rpc.Msg.GetType() == pb.Message_GET_VALUE && sc.Vals[i-1] != "" {
+					resp.Record = &recpb.Record{Key: rpc.Msg.GetKey(), Value: []byte(sc.Vals[i-1])}
+					delivered[sc.Vals[i-1]] = true
+				}
+				if rpc.Msg.GetType() == pb.Message_PUT_VALUE {
+					resp.Record = rpc.Msg.GetRecord()
+				}
+				o.Resp = resp
+			}
+			gate.Release(it, o)
+			continue
+		}
+		break
+	}
+	cancel()
+	drain()
+	if hang {
+		select {
+		case <-done:
+		case <-time.After(time.Hour):
+		}
+	}
+	mu.Lock()
+	vals := append([]string{}, got...)
+	mu.Unlock()
+	ranks := []int{}
+	valid, offered := true, true
+	for _, v := range vals {
+		ok, rk := valRank([]byte(v))
+		ranks = append(ranks, rk)
+		valid = valid && ok
+		offered = offered && delivered[v]
+	}
+	tr.Add("SV", "ranks", ranks, "valid", valid, "offered", offered, "hang", hang, "err", "")
+	cl := make(chan struct{})
+	go func() { _ = e.d.Close(); close(cl) }()
+	for i := 0; i < 50; i++ {
+		synctest.Wait()
+		drain()
+		select {
+		case <-cl:
+			i = 50
+		default:
+			time.Sleep(time.Second)
+		}
+	}
+	_ = e.h.Close()
+	tr.Add("End")
+	return tr.Events
+}
+
 // runFRTCrawl: the real crawler against a scripted network.
 func runFRTCrawl(t *testing.T, sc *FRTScenario, ch sim.Chooser) []sim.Ev {
 	r := rand.New(rand.NewSource(sc.Seed))
@@ -629,6 +912,31 @@ func genFRTScenario(r *rand.Rand, kind string) *FRTScenario {
 			}
 		}
 		sc.Par = 1 + r.Intn(3)
+	case "searchvalue":
+		sc.K = 20
+		sc.Limit = 0
+		n := 2 + r.Intn(4)
+		for i := 0; i < n; i++ {
+			sc.Peers = append(sc.Peers, FRTPeer{Groups: []int{1 + i}})
+			sc.Vals = append(sc.Vals, []string{"", "V1:a", "V1:b", "V2:a", "V2:b", "V3:a", "I1"}[r.Intn(7)])
+		}
+		sc.SlowCons = r.Intn(2) == 0
+	case "findprov":
+		sc.K = 20
+		sc.Limit = 0
+		n := 2 + r.Intn(4)
+		for i := 0; i < n; i++ {
+			sc.Peers = append(sc.Peers, FRTPeer{Groups: []int{1 + i}})
+			pv := []int{}
+			for x := 1; x <= 4; x++ {
+				if r.Intn(2) == 0 {
+					pv = append(pv, x)
+				}
+			}
+			sc.Provs = append(sc.Provs, pv)
+		}
+		sc.Count = r.Intn(4)
+		sc.SlowCons = r.Intn(2) == 0
 	case "ops":
 		sc.WithBootstrap = r.Intn(2) == 0
 		sc.WithBucket = r.Intn(2) == 0
@@ -704,6 +1012,10 @@ func TestFullRT(t *testing.T) {
 		}
 		for i := 0; i < nCrawl; i++ {
 			addJob(genFRTScenario(r, "crawl"), &schedJob{Seed: 1 + r.Int63()})
+		}
+		for i := 0; i < nCrawl/4; i++ {
+			addJob(genFRTScenario(r, "findprov"), &schedJob{Seed: 1 + r.Int63()})
+			addJob(genFRTScenario(r, "searchvalue"), &schedJob{Seed: 1 + r.Int63()})
 		}
 		for _, wb := range []bool{true, false} {
 			for _, wk := range []bool{true, false} {
